@@ -33,7 +33,7 @@ _B64 = r"[./0-9A-Za-z]"
 
 
 def bounds(tier, seed):
-    return {"type7": "salts 00..15 x plaintext lengths 1..3", "md5_salt_lengths": "1..8",
+    return {"type7": "salts 00..15 x plaintext lengths 1..3 and 26; salts 0/7/15 x lengths 8..64", "md5_salt_lengths": "1..8",
             "j9_salt_chars": 65, "digits_len": "1..12", "enclosing_depth": 1 if tier == "quick" else 2,
             "forms": "first form of every replacing catalogue group", "netconan_salts": SALTS}
 
@@ -111,6 +111,12 @@ def secrets_menu(tier, seed):
         for plain in ("k", "Zq", "pW3"):
             e = refs.type7_encode(plain, sd)
             out.append(e)
+    # long type 7 strings (keys and user passwords are not limited to 25 characters)
+    longp = "Long-Plaintext_0123456789-abcdefghijklmnopqrstuvwxyz-ABCDEFGHIJKLMNOPQRSTUVWXYZ"
+    for n in (8, 13, 24, 25, 26, 27, 40, 64):
+        for sd in (range(16) if n == 26 else (0, 7, 15)):
+            out.append(refs.type7_encode(longp[:n], sd))
+    out += ["c0ffee" * 7, "AB" * 32, "0123456789abcdef" * 4, "9" * 40, "1" + "0" * 63, "LongText-" * 12]
     for k in range(1, 9):
         out.append("$1$%s$%s" % ("abcdefgh"[:k], secdom._crypt_tail(22, k)))
     out.append("$6$%s$%s" % (secdom._crypt_tail(16, 5), secdom._crypt_tail(86, 9)))
